@@ -1,6 +1,6 @@
 (** C18 — Authorization: no backend access for a denied instance name.
     Statements only; proofs are in Auth/AuthProofs.v. *)
-From BBS Require Import Common.Sx Auth.Auth Auth.AuthProofs Run.R18 Run.R18Proofs.
+From BBS Require Import Common.Sx Common.ListX Auth.Auth Auth.AuthProofs Run.R18 Run.R18Proofs.
 
 (** The operational 'any' authorizer (the code's filtering loop, any nesting
     depth, any list of names) computes, for every name, the first member
